@@ -35,6 +35,16 @@ type objKind struct {
 	ops  []objOp
 }
 
+// the job table's type is unexported; these are the methods the interpreter calls
+type jobsTable interface {
+	Add(*lang.Process)
+	GarbageCollect()
+	Get(int) (*lang.Process, error)
+	GetLatest() (*lang.Process, error)
+	GetFromCommandLine(string) (*lang.Process, error)
+	List() []*lang.JobT
+}
+
 type varsObj struct {
 	p *lang.Process
 	v *lang.Variables
@@ -241,6 +251,24 @@ func objKinds() []objKind {
 			{"json.Marshal", func(any) { mxjson.Marshal(map[string]any{"a": []any{1, "b"}}, false) }},
 			{"json.UnmarshalMurex", func(any) { var v any; mxjson.UnmarshalMurex([]byte(`{"a": [1, "b"]}`), &v) }},
 			{"ansi.ExpandConsts", func(any) { ansi.ExpandConsts("{RED}x{RESET}") }},
+		}},
+		{"jobs", func() any {
+			j := lang.NewJobs()
+			p := newProc()
+			j.Add(p)
+			return j
+		}, []objOp{
+			{"Add", func(o any) { o.(jobsTable).Add(newProc()) }},
+			{"Add finished", func(o any) {
+				p := newProc()
+				p.SetTerminatedState(true)
+				o.(jobsTable).Add(p)
+			}},
+			{"GarbageCollect", func(o any) { o.(jobsTable).GarbageCollect() }},
+			{"Get 1", func(o any) { o.(jobsTable).Get(1) }},
+			{"GetLatest", func(o any) { o.(jobsTable).GetLatest() }},
+			{"GetFromCommandLine", func(o any) { o.(jobsTable).GetFromCommandLine("x") }},
+			{"List", func(o any) { o.(jobsTable).List() }},
 		}},
 		{"unit-tests", func() any {
 			lang.GlobalUnitTests.Add("vf", &lang.UnitTestPlan{StdoutMatch: "f\n"}, objFileRef)
